@@ -1,6 +1,6 @@
 SPECIFICATION Spec
 CONSTANTS
-  Alpha = {1,2,3,4,5,6,8,9,10,11,12}
+  Alpha = {1,2,3,4,5,6,9,10,11}
   MaxLen = 6
   KA = {3}
   KB = {1}
